@@ -24,6 +24,7 @@ from amaranth.hdl._ir import build_netlist
 # Register names and widths of the unit on the reference tree (set by the driver per contract, from probe_baseline.json):
 # lets a contract follow a *renamed* internal register (see TS.resolve).
 REFERENCE_REGS = {}
+REFERENCE_MODS = {}         # prefix+module path -> class name of the Elaboratable there, on the reference tree
 REFERENCE_PORTS = {}        # prefix+port name -> width on the reference tree (probe baseline)
 
 
@@ -99,6 +100,7 @@ class TS:
         self.clock_inputs, self.reset_inputs = [], []
         self.probes = {}
         self.rebound = []
+        self.widened = {}
         self._build()
         self._index_names()
 
@@ -475,6 +477,55 @@ class TS:
         import re
         return '.'.join(re.sub(r'\$\d+$', '', comp) for comp in path.split('.'))
 
+    def module_classes(self):
+        """stripped module path -> class name of the (outermost non-Amaranth) Elaboratable elaborated there"""
+        if getattr(self, "_modcls", None) is None:
+            out = {}
+            for obj, frag in getattr(self.design, "elaboratables", {}).items():
+                info = self.design.fragments.get(frag)
+                if info is None or len(info.name) < 2:
+                    continue
+                mp = self._strip('.'.join(info.name[1:]))
+                if not type(obj).__module__.startswith("amaranth") and mp not in out:
+                    out[mp] = type(obj).__name__
+            self._modcls = out
+        return self._modcls
+
+    def _module_map(self):
+        """Submodule-rename following.  A module path that existed on the reference tree (REFERENCE_MODS, with the class
+        elaborated there) and is gone is mapped to the one *new* module of the same class under the same (mapped) parent.
+        Every followed rename is recorded (self.rebound) and marks the contract degraded."""
+        if getattr(self, "_modmap", None) is not None:
+            return self._modmap
+        new = self.module_classes()
+        ref = {k[len(self.prefix):]: v for k, v in REFERENCE_MODS.items() if k.startswith(self.prefix)}
+        mm = {}
+        for r in sorted(ref, key=lambda x: x.count('.')):
+            parent, _, leaf = r.rpartition('.')
+            mparent = mm.get(parent, parent) if parent else ''
+            same = (mparent + '.' if mparent else '') + leaf
+            if same in new:
+                if same != r:
+                    mm[r] = same
+                continue
+            cands = [q for q, cls in new.items() if cls == ref[r] and q.rpartition('.')[0] == mparent and q not in ref
+                     and q not in mm.values()]
+            if len(cands) == 1:
+                mm[r] = cands[0]
+                self.rebound.append(f"module {r} -> {cands[0]} (renamed submodule of class {ref[r]})")
+        self._modmap = mm
+        return mm
+
+    def _remap(self, want):
+        """`want` (stripped path) with its longest renamed module prefix replaced; None when no rename applies"""
+        mm = self._module_map()
+        comps = want.split('.')
+        for i in range(len(comps) - 1, 0, -1):
+            pre = '.'.join(comps[:i])
+            if pre in mm:
+                return mm[pre] + '.' + '.'.join(comps[i:])
+        return None
+
     def resolve(self, path):
         """Exact path, or the path modulo Amaranth's `$N` de-duplication suffixes (which depend on unrelated code); when
         several signals share the stripped name, the one backed by a flip-flop is meant."""
@@ -490,6 +541,9 @@ class TS:
         if len(cands) == 1:
             return cands[0]
         if not cands:
+            moved = self._remap(want)
+            if moved is not None and moved != want:
+                return self.resolve(moved)
             alt = self._renamed_register(want)
             if alt is not None:
                 return alt
@@ -522,7 +576,18 @@ class TS:
     def sig(self, path):
         if path in self.inputs: return self.inputs[path]
         if path in self.outputs: return self.outputs[path]
-        return self.of(self.paths[self.resolve(path)])
+        p = self.resolve(path)
+        v = self.of(self.paths[p])
+        # a register whose width differs from the reference tree's: contracts are written for the reference width.
+        # Narrower: zero-extended (what every reader of an unsigned signal sees).  Wider: the low bits, and the driver
+        # adds the conjunct "the new upper bits are zero" (self.widened); the contract is then degraded (run.py).
+        ref = REFERENCE_REGS.get(self.prefix + self._strip(p))
+        if ref and z3.is_bv(v) and v.size() != ref:
+            if v.size() < ref:
+                return z3.ZeroExt(ref - v.size(), v)
+            self.widened[p] = (v, ref)
+            return z3.Extract(ref - 1, 0, v)
+        return v
 
     def key(self, name):
         """the global (prefixed) name of an input port, as used in traces"""
@@ -535,9 +600,26 @@ class TS:
         self.probes["has:" + path] = ok
         return ok
 
+    def reg(self, name):
+        """State variable of the flip-flop named `name` ('module.signal'), modulo `$N` suffixes and followed submodule
+        renames (use this instead of looking names up in ts.state by hand)."""
+        want = self._strip(name)
+        for w in (want, self._remap(want)):
+            if w is None:
+                continue
+            c_ = [v for k, v in self.state.items() if k[0] == 'ff' and self._strip(str(v)) == self.prefix + w]
+            if len(c_) == 1:
+                return c_[0]
+            if len(c_) > 1:
+                raise BindingError(f"ambiguous register {name!r}")
+        raise BindingError(f"no register {name}")
+
     def has_reg(self, name):
         """Probe for a register by its z3 name ('module.signal')."""
         ok = any(str(v) == self.prefix + name for v in self.state.values())
+        if not ok:
+            moved = self._remap(self._strip(name))
+            ok = moved is not None and any(self._strip(str(v)) == self.prefix + moved for v in self.state.values())
         self.probes["reg:" + name] = ok
         return ok
 
@@ -558,6 +640,8 @@ class TS:
     def mem(self, path):
         if path not in self.mems:
             c_ = [p for p in self.mems if self._strip(p) == self._strip(path)]
+            if not c_ and self._remap(self._strip(path)):
+                c_ = [p for p in self.mems if self._strip(p) == self._remap(self._strip(path))]
             if len(c_) != 1:
                 raise BindingError(f"no memory {path!r} (have {list(self.mems)})")
             path = c_[0]
